@@ -287,4 +287,31 @@ theorem stake_accounting_from_genesis (cfg : Cfg) (U : List Bytes) (h : Nat) (ba
 example : ledger toyCfg funded demoOps .val [0x11] = 800 + 7 - 100 ∧
     stakeAt toyCfg (run toyCfg funded demoOps) .val [0x11] = 707 := by decide
 
+/-! ## the stake opcodes mutate the same registry -/
+
+def stOpcode : State := run toyCfg funded [.tx (.apply addr1 [0x11] 1 2500 addr2 [1] [1]), .endBlock 101]
+
+/-- Conservation for the UNSTAKE opcode, as the property would have it. -/
+def FullStatementUnstakeOpcodeConserves : Prop :=
+  ∀ cfg st origin contract money U, CodecId cfg → RawOK cfg → C20.Reachable cfg st →
+    wealth cfg U (vmUnstake cfg st origin contract money) = wealth cfg U st
+
+/-- False of the code (known finding `unstake-opcode-escrows-untruncated-amount`): UNSTAKE of 1.5 tokens lowers
+    the stake by 1 token and escrows 1.5. -/
+theorem unstake_opcode_counterexample : ¬ FullStatementUnstakeOpcodeConserves := by
+  intro h
+  have hr : C20.Reachable toyCfg stOpcode :=
+    ⟨100, _, [.tx (.apply addr1 [0x11] 1 2500 addr2 [1] [1]), .endBlock 101], by
+      intro o ho
+      simp only [List.mem_cons, List.not_mem_nil, or_false] at ho
+      rcases ho with rfl | rfl
+      · exact ⟨by decide, by decide⟩
+      · trivial, rfl⟩
+  have := h toyCfg stOpcode addr1 addr2 (15 * 10 ^ 17) [[0x11]] toy_codecId toy_rawOK hr
+  exact absurd this (by decide)
+
+/-- What the opcode does do (model = code, T-corr): stake −1, escrow for the origin +1.5·10^18. -/
+example : stakeAt toyCfg (vmUnstake toyCfg stOpcode addr1 addr2 (15 * 10 ^ 17)) .prop [0x11] = 2499 ∧
+    (vmUnstake toyCfg stOpcode addr1 addr2 (15 * 10 ^ 17)).escOf (101 + refundDelay) addr1 = 15 * 10 ^ 17 := by decide
+
 end Rangers.Props.C20B
